@@ -123,9 +123,16 @@ def eclass(e):
 def pclass(op):
     path = op.get('path', ())
     if not path: return '(document)'
-    parts = [eclass(e) for e in path]
-    if op.get('pparam'): parts[-1] += ' (parameter)'
+    parts = [eclass(e) + (' (parameter)' if n else '') for e, n in zip(path, param_names(op))]
     return ' / '.join(parts)
+def param_names(op):
+    """per path position: name of the external parameter that holds the item, or None for a literal"""
+    path = op.get('path', ())
+    if op.get('pnames'): return op['pnames']
+    return ['pk' if (op.get('pparam') and i == len(path) - 1) else None for i in range(len(path))]
+
+def pair_pclass(op):
+    return ' ; '.join(pclass(x) for x in op['subs']) + (' [one parameter name in both]' if op.get('share') == 'shared' else '')
 
 def jeq(a, b):
     """typed JSON equality (bool is not a number; int and float compare by value)"""
@@ -218,7 +225,7 @@ def explain(op, doc, got, arr):
                 if same_value(doc[a2:b2], got): return 'array: a negative bound below -len wraps around a second time'
         return None
     path = op.get('path', ())
-    valmode = k in VALUE_KINDS
+    valmode = is_value_op(op)
     if any(isinstance(e, str) and '"' in e for e in path):
         if valmode:
             e = expect_value(op, doc, True)
@@ -263,16 +270,26 @@ def a_expect_bool(op, arr):
 def path_text(op):
     path = op.get('path', ())
     t = 'x.data'
-    for i, e in enumerate(path):
-        t += '[pk]' if (op.get('pparam') and i == len(path) - 1) else '[%r]' % (e,)
+    for e, n in zip(path, param_names(op)): t += '[%s]' % n if n else '[%r]' % (e,)
     return t
 def op_text(op):
     """(python expression over x, external parameters)"""
     k = op['kind']
     g = {}
+    if k == 'pair':
+        texts = []
+        for sub in op['subs']:
+            t, gs = op_text(sub)
+            for n, v in gs.items():
+                if n in g and (g[n] != v or type(g[n]) is not type(v)): raise core.HarnessError('parameter %s is shared by two different values' % n)
+                g[n] = v
+            texts.append(t)
+        if op['form'] == 'tuple': return ', '.join(texts), g
+        return ' and '.join('(%s)' % t for t in texts), g
     if k in ('proj', 'len', 'cmp', 'isnone', 'truth', 'contains'):
         T = path_text(op)
-        if op.get('pparam'): g['pk'] = op['path'][-1]
+        for e, n in zip(op.get('path', ()), param_names(op)):
+            if n: g[n] = e
         if k == 'proj': return T, g
         if k == 'len': return 'len(%s)' % T, g
         if k == 'cmp':
@@ -286,7 +303,7 @@ def op_text(op):
             return '%s %s %s' % (key, 'not in' if op['neg'] else 'in', T), g
     A = 'x.' + op['attr']
     if k == 'aindex':
-        if op.get('param'): g['i'] = op['i']; return A + '[i]', g
+        if op.get('param'): g[op.get('pname', 'i')] = op['i']; return '%s[%s]' % (A, op.get('pname', 'i')), g
         return '%s[%d]' % (A, op['i']), g
     if k == 'aslice':
         if op.get('param'):
@@ -306,10 +323,14 @@ def op_text(op):
     raise core.HarnessError(k)
 
 VALUE_KINDS = ('proj', 'len', 'aindex', 'aslice', 'alen')
-def is_array_op(op): return op['kind'].startswith('a')
+def is_value_op(op): return op['form'] == 'tuple' if op['kind'] == 'pair' else op['kind'] in VALUE_KINDS
+def is_array_op(op): return is_array_op(op['subs'][0]) if op['kind'] == 'pair' else op['kind'].startswith('a')
 
 def op_name(op):
     k = op['kind']
+    if k == 'pair':
+        if op['form'] == 'tuple': return 'two %s in one query: (%s)' % ('array items' if is_array_op(op) else 'paths', ', '.join(op_name(x) for x in op['subs']))
+        return 'two paths in one query: %s' % ' and '.join(op_name(x) for x in op['subs'])
     if k == 'cmp': return 'path %s constant' % op['op'] + (' (parameter)' if op.get('cparam') else '')
     if k == 'isnone': return 'path %s None' % op['form']
     if k == 'truth': return 'if not path' if op['neg'] else 'if path'
@@ -354,6 +375,77 @@ def json_ops(quick):
             for neg in (False, True):
                 out.append(dict(kind='contains', path=p, key=key, neg=neg))
                 out.append(dict(kind='contains', path=p, key=key, neg=neg, kparam=True))
+    return out
+
+# ---- two paths / two array items in ONE query -----------------------------------------------------------------
+PAIR_ITEMS = dict(quick=['a', 'b c', 0, 1], thorough=['a', 'b c', '1', 0, 1, -1])
+AND_KINDS = [(dict(kind='truth', neg=False), dict(kind='truth', neg=False)),
+             (dict(kind='isnone', form='is not', neg=True), dict(kind='isnone', form='is', neg=False)),
+             (dict(kind='cmp', op='==', const='x'), dict(kind='cmp', op='!=', const='x')),
+             (dict(kind='truth', neg=True), dict(kind='isnone', form='is not', neg=True))]
+
+def pair_paths(quick):
+    E = PAIR_ITEMS['quick' if quick else 'thorough']
+    return [[e] for e in E] + [[a, b] for a in ('a', 0) for b in E]
+
+def _masks(n, quick):
+    """which positions of a path of length n are external parameters: quick at most one, thorough any subset"""
+    out = [m for m in itertools.product((False, True), repeat=n)]
+    return [m for m in out if sum(m) <= 1] if quick else out
+
+def _namings(p, mp, q, mq):
+    """parameter names for the parametrised positions of the two paths: 'distinct' gives every occurrence its own
+    name, 'shared' gives equal values one common name (only yielded when that differs from 'distinct')"""
+    occ = [(0, i, p[i]) for i in range(len(p)) if mp[i]] + [(1, i, q[i]) for i in range(len(q)) if mq[i]]
+    def build(names):
+        a, b = [None] * len(p), [None] * len(q)
+        for (w, i, v), n in zip(occ, names): (a if w == 0 else b)[i] = n
+        return a, b
+    yield 'distinct', build(['p%d' % j for j in range(len(occ))])
+    byval, names = {}, []
+    for w, i, v in occ:
+        key = (type(v).__name__, v)
+        if key not in byval: byval[key] = 'p%d' % len(byval)
+        names.append(byval[key])
+    if len(byval) < len(occ): yield 'shared', build(names)
+
+def pair_ops(quick):
+    """every unordered pair of catalogue paths (a path also with itself) x every parameter mask of both x
+    {distinct, shared} parameter names x {tuple of the two projections, conjunctions of two conditions}"""
+    P = pair_paths(quick)
+    kinds = AND_KINDS[:2] if quick else AND_KINDS
+    out = []
+    for i, p in enumerate(P):
+        for q in P[i:]:
+            for mp in _masks(len(p), quick):
+                for mq in _masks(len(q), quick):
+                    if p == q and mq < mp: continue                        # the same unordered pair
+                    for share, (na, nb) in _namings(p, mp, q, mq):
+                        if p == q and na == nb: continue                   # one and the same expression twice
+                        full = not quick and (sum(mp) > 1 or sum(mq) > 1)
+                        out.append(dict(kind='pair', form='tuple', share=share,
+                                        subs=[dict(kind='proj', path=p, pnames=na), dict(kind='proj', path=q, pnames=nb)]))
+                        if full: continue                                  # conjunctions: at most one parameter per path
+                        for k1, k2 in kinds:
+                            out.append(dict(kind='pair', form='and', share=share,
+                                            subs=[dict(k1, path=p, pnames=na), dict(k2, path=q, pnames=nb)]))
+    return out
+
+def array_pair_ops():
+    """(x.arr[i], x.arr[j]) for i, j in {-1, 0, 2}, each index literal or parameter, parameters distinct or shared"""
+    out = []
+    I = (-1, 0, 2)
+    for attr in ('ia', 'sa', 'fa'):
+        for i in I:
+            for j in I:
+                for pi in (False, True):
+                    for pj in (False, True):
+                        for share in ('distinct', 'shared'):
+                            if share == 'shared' and not (pi and pj and i == j): continue
+                            if i == j and pi == pj and (share == 'shared' or not pi): continue      # the same expression twice
+                            out.append(dict(kind='pair', form='tuple', share=share, attr=attr,
+                                            subs=[dict(kind='aindex', attr=attr, i=i, param=pi, pname='i0'),
+                                                  dict(kind='aindex', attr=attr, i=j, param=pj, pname='i0' if share == 'shared' else 'i1')]))
     return out
 
 def array_ops():
@@ -431,7 +523,7 @@ def query(st, op, lo, hi):
     ent = 'Arr' if is_array_op(op) else 'Doc'
     g = dict(g, lo=lo, hi=hi)
     g[ent] = getattr(st['db'], ent)
-    if op['kind'] in VALUE_KINDS: text = '(x.id, %s) for x in %s if x.id >= lo and x.id < hi' % (expr, ent)
+    if is_value_op(op): text = '(x.id, %s) for x in %s if x.id >= lo and x.id < hi' % (expr, ent)
     else: text = 'x.id for x in %s if x.id >= lo and x.id < hi and (%s)' % (ent, expr)
     with orm.db_session:
         if op.get('fe') == 'str': q = orm.select(text, g, {})
@@ -441,7 +533,8 @@ def query(st, op, lo, hi):
             if code is None: code = _CODE[text] = compile('(' + text + ')', '<c29>', 'eval')
             q = orm.select(eval(code, g), g, {})
         r = q[:]
-    return dict(r) if op['kind'] in VALUE_KINDS else set(r)
+    if op['kind'] == 'pair' and op['form'] == 'tuple': return {row[0]: tuple(row[1:]) for row in r}
+    return dict(r) if is_value_op(op) else set(r)
 _CODE = {}
 
 def answers(st, op, lo, hi, out, refused):
@@ -465,6 +558,40 @@ def same_value(e, g):
     if isinstance(g, tuple): g = list(g)
     return jeq(e, g)
 
+def and3(es):
+    """conjunction of expectations"""
+    if NOANS in es: return NOANS
+    if any(e is False for e in es): return False
+    if all(e is True for e in es): return True
+    return EITHER
+
+def verdict(op, doc, present, got, arr):
+    """None (agrees) | 'skip:<counter>' | failure kind"""
+    if op['kind'] == 'pair' and op['form'] == 'tuple':
+        if not present: return 'row missing from the projection'
+        if not isinstance(got, tuple) or len(got) != len(op['subs']): return 'wrong number of items'
+        ks = [verdict(x, doc, True, g, arr) for x, g in zip(op['subs'], got)]
+        bad = [(i, k) for i, k in enumerate(ks) if k is not None and not k.startswith('skip:')]
+        if bad: return 'item %d: %s' % (bad[0][0] + 1, bad[0][1])
+        if all(k is not None for k in ks): return ks[0]
+        return None
+    if is_value_op(op):
+        if not present: return 'row missing from the projection'
+        exp = a_expect_value(op, doc) if arr else expect_value(op, doc)
+        if exp[0] == 'any': return 'skip:python_has_no_answer'
+        if exp[0] == 'vs': return None if any(same_value(e, got) for e in exp[1]) else 'wrong value'
+        if same_value(exp[1], got): return None
+        if got is None: return 'None for a present value'
+        if exp[1] is None: return 'value for a missing path / null'
+        return 'wrong value'
+    if op['kind'] == 'pair': exp = and3([expect_bool(x, doc) for x in op['subs']])
+    else: exp = a_expect_bool(op, doc) if arr else expect_bool(op, doc)
+    if exp == NOANS: return 'skip:python_has_no_answer'
+    if exp == EITHER: return 'skip:not_fixed_by_the_statement:' + ('selected' if got else 'not selected')
+    if exp is True and not got: return 'not selected but the Python expression is true'
+    if exp is False and got: return 'selected but the Python expression is not true'
+    return None
+
 def judge(sub, st, op, json1):
     """run one operation over every row and compare"""
     arr = is_array_op(op)
@@ -472,7 +599,7 @@ def judge(sub, st, op, json1):
     out, refused = {}, {}
     answers(st, op, 1, nrows + 1, out, refused)
     name = op_name(op)
-    valmode = op['kind'] in VALUE_KINDS
+    pair = op['kind'] == 'pair'
     okrows = 0
     for i in range(1, nrows + 1):
         sub.count('evaluations')
@@ -481,44 +608,32 @@ def judge(sub, st, op, json1):
             vc = 'NULL' if doc is None else ('empty array' if not doc else 'array')
         else:
             doc = st['docs'][i - 1]
-            vc = vclass(*trav(doc, op.get('path', ())))
+            if pair: vc = ' ; '.join(vclass(*trav(doc, x['path'])) for x in op['subs'])
+            else: vc = vclass(*trav(doc, op.get('path', ())))
         if i in refused:
             sub.count('refused'); sub.count('refused_by_exception:' + refused[i]); sub.count('refused_at:%s json1=%s' % (op['kind'], 'on' if json1 else 'off'))
             continue
         sub.count('answered')
         got = out.get(i)
-        kind = None
-        if valmode:
-            if i not in out: kind = 'row missing from the projection'
-            else:
-                exp = a_expect_value(op, doc) if arr else expect_value(op, doc)
-                if exp[0] == 'any': sub.count('python_has_no_answer'); continue
-                if exp[0] == 'vs':
-                    if not any(same_value(e, got) for e in exp[1]): kind = 'wrong value'
-                elif not same_value(exp[1], got):
-                    if got is None: kind = 'None for a present value'
-                    elif exp[1] is None: kind = 'value for a missing path / null'
-                    else: kind = 'wrong value'
-        else:
-            exp = a_expect_bool(op, doc) if arr else expect_bool(op, doc)
-            if exp == NOANS: sub.count('python_has_no_answer'); continue
-            if exp == EITHER: sub.count('not_fixed_by_the_statement:' + ('selected' if got else 'not selected')); continue
-            if exp is True and not got: kind = 'not selected but the Python expression is true'
-            elif exp is False and got: kind = 'selected but the Python expression is not true'
+        kind = verdict(op, doc, i in out, got, arr)
+        if kind is not None and kind.startswith('skip:'):
+            sub.count(kind[5:]); continue
         if kind is None:
             sub.count('agreed'); okrows += 1
-            if vc not in ('missing', 'NULL'): sub.count('nontrivial')
+            if vc not in ('missing', 'NULL', 'missing ; missing'):
+                sub.count('nontrivial')
+                if pair: sub.count('nontrivial_pairs')
             continue
         sub.count('disagreed')
         expr, g = op_text(op)
-        why = explain(op, doc, got, arr)
+        why = None if pair else explain(op, doc, got, arr)
         if why is not None:
             sig = dict(explained=why, op=name + ('' if op['kind'] != 'cmp' else ' <%s>' % tclass(op['const'])), json1='on' if json1 else 'off', value=vc)
             sub.violation(json.dumps(sig, sort_keys=True), dict(op=op, json1=json1, row=i, doc=doc, quick=st['quick']),
                           '%s %r on %s (json1=%s): %s; got %r' % (expr, g, json.dumps(doc), json1, kind, got))
             continue
         sig = dict(op=name, const=tclass(op['const']) if op['kind'] == 'cmp' else '-', json1='on' if json1 else 'off', kind=kind,
-                   path=('%s array' % {'ia': 'Int', 'sa': 'Str', 'fa': 'Float'}[op['attr']]) if arr else pclass(op), value=vc)
+                   path=('%s array' % {'ia': 'Int', 'sa': 'Str', 'fa': 'Float'}[op['attr']]) if arr else pair_pclass(op) if pair else pclass(op), value=vc)
         sub.violation(json.dumps(sig, sort_keys=True), dict(op=op, json1=json1, row=i, doc=doc, quick=st['quick']),
                       '%s %r on %s (json1=%s): %s; got %r' % (expr, g, json.dumps(doc), json1, kind, got))
     return okrows
@@ -541,7 +656,7 @@ def work(task):
 
 _OPS = {}
 def all_ops(quick):
-    if quick not in _OPS: _OPS[quick] = json_ops(quick) + array_ops()
+    if quick not in _OPS: _OPS[quick] = json_ops(quick) + array_ops() + pair_ops(quick) + array_pair_ops()
     return _OPS[quick]
 
 # ---- other dialects: rendering only -----------------------------------------------------------------
@@ -560,7 +675,7 @@ def render(task):
         expr, g = op_text(op)
         ent = 'Arr' if is_array_op(op) else 'Doc'
         g = dict(g); g[ent] = getattr(db, ent)
-        text = ('(x.id, %s) for x in %s' % (expr, ent)) if op['kind'] in VALUE_KINDS else ('x.id for x in %s if %s' % (ent, expr))
+        text = ('(x.id, %s) for x in %s' % (expr, ent)) if is_value_op(op) else ('x.id for x in %s if %s' % (ent, expr))
         sub.count('rendered_only:' + dialect)
         try:
             with orm.db_session: sql = orm.select(text, g, {}).get_sql()
@@ -655,13 +770,6 @@ def replay(ctx, case):
         print('refused  :', type(e).__name__, e); return True
     print('sql      :', db.last_sql.replace('\n', ' '))
     arr = is_array_op(op)
-    if op['kind'] in VALUE_KINDS:
-        exp = a_expect_value(op, doc) if arr else expect_value(op, doc)
-        print('answer   :', r.get(1), ' expected:', exp)
-        if exp[0] == 'any': return True
-        if exp[0] == 'vs': return any(same_value(e, r.get(1)) for e in exp[1])
-        return 1 in r and same_value(exp[1], r[1])
-    exp = a_expect_bool(op, doc) if arr else expect_bool(op, doc)
-    print('selected :', 1 in r, ' expected:', exp)
-    if exp in (NOANS, EITHER): return True
-    return (1 in r) == exp
+    k = verdict(op, doc, 1 in r, r.get(1) if isinstance(r, dict) else (1 in r), arr)
+    print('answer   :', r.get(1) if isinstance(r, dict) else (1 in r), ' verdict:', k or 'agrees')
+    return k is None or k.startswith('skip:')
